@@ -95,7 +95,7 @@ func c09Exit(p *chk.Prog, r *chk.Report) {
 		for _, rs := range f.RangeLoops(func(e ast.Expr) bool { return f.MatchWith("S.Status.LoadBalancer.Ingress", e, chk.H("S", isParam(f, "svc"))) != nil }) {
 			isApp := f.IsAssignPat("L", "append(L, IP)", chk.H("L", f.IsObj(lbIPs)), chk.H("IP", definedBy(g, "net.ParseIP(S.Status.LoadBalancer.Ingress[I].IP)", chk.H("S", isParam(f, "svc")))))
 			// an iteration either appends or leaves the function through deleteBalancer
-			okIPs = !loopSkipsWithout(g, rs, isApp, nil)
+			okIPs = !loopSkipsWithout(g, rs, isApp, chk.NoGuard)
 		}
 	}
 	x.Check("SetBalancer:addresses-are-the-status", f.Pos(), okIPs, "", "the addresses evaluated are not exactly those recorded in the Service status")
